@@ -43,10 +43,10 @@ func push32(v *big.Int) []byte {
 // Deploy wraps runtime code into init code: [prefix] ; CODECOPY(0, off, len) ; RETURN(0, len) ; runtime.
 // prefix runs once at creation time and must leave the stack empty.
 func Deploy(prefix, runtime []byte) []byte {
-	if len(runtime) > 255 || len(prefix)+12 > 255 {
+	if len(runtime) > 255 || len(prefix)+11 > 255 {
 		panic("txkit: contract too long for PUSH1 offsets")
 	}
-	off := byte(len(prefix) + 12)
+	off := byte(len(prefix) + 11) // the copy-and-return sequence below is 11 bytes long
 	code := append([]byte{}, prefix...)
 	code = append(code, opPUSH1, byte(len(runtime)), opDUP1, opPUSH1, off, opPUSH1, 0, opCODECOPY, opPUSH1, 0, opRETURN)
 	return append(code, runtime...)
